@@ -276,6 +276,12 @@ func genC17(r *rand.Rand, t *Trace, thorough bool) {
 		storeCaseCounter++
 		raceRound(filepath.Join(work, "stores", fmt.Sprintf("lr%d_%d", os.Getpid(), storeCaseCounter)), t)
 	}
+	for it := 0; it < 6; it++ {
+		// Close while a compaction / a background flush is held in the middle of its work: Close returns and
+		// the directory is free again (the schedule is C11's; here its outcome for the lock matters)
+		storeCaseCounter++
+		closeWhileBusy(r, filepath.Join(work, "stores", fmt.Sprintf("lb%d_%d", os.Getpid(), storeCaseCounter)), it%2, t)
+	}
 	for it := 0; it < 6+n/40; it++ {
 		storeCaseCounter++
 		addAcrossClose(r, filepath.Join(work, "stores", fmt.Sprintf("la%d_%d", os.Getpid(), storeCaseCounter)), t)
